@@ -32,7 +32,13 @@ func (Prop) Plan(tier string) []lib.Workload {
 	if tier == "thorough" {
 		n = 4000
 	}
-	return []lib.Workload{{Name: "schedules", Cases: n, MinNontrivial: n / 4}}
+	wide := 40
+	if tier == "thorough" {
+		wide = 600
+	}
+	// "wide": 5-6 replicas, frequent snapshots, few deliveries between edits - many concurrent heads citing
+	// different snapshots (added after seeded change C01-2 was caught only once in 300 ordinary schedules)
+	return []lib.Workload{{Name: "schedules", Cases: n, MinNontrivial: n / 4}, {Name: "wide", Cases: wide, MinNontrivial: wide / 4}}
 }
 
 func (Prop) RunCase(c *lib.Case) {
@@ -63,7 +69,17 @@ func DrawParams(c *lib.Case) Params {
 	p.PTrunc = []float64{0, 0.2, 0.5}[r.Intn(3)]
 	p.LateJoiner = p.N >= 3 && r.Intn(5) == 0
 	p.Encrypted = r.Intn(2) == 0
+	if c.Workload == "wide" {
+		p.N = 5 + r.Intn(2)
+		p.Steps = 40 + r.Intn(41)
+		p.PSnapshot = []float64{0.15, 0.3, 0.45}[r.Intn(3)]
+		p.PDrop = []float64{0.1, 0.3}[r.Intn(2)]
+		p.LateJoiner = false
+	}
 	p.MaxSize = []int{8, 64, 600, 600, 400000}[r.Intn(5)]
+	if c.Workload == "wide" && p.MaxSize > 1000 {
+		p.MaxSize = 64
+	}
 	if p.MaxSize > 1000 {
 		// a few big changes so that full-sync responses span several 1 MiB batches
 		p.Steps = 10 + r.Intn(12)
@@ -253,13 +269,15 @@ func antiEntropy(c *lib.Case, s *netsim.Sim, mon *monitor, p Params) {
 	r := c.Rng
 	// whatever is still in flight is delivered reliably too (the network drains)
 	drain := func(phase string) bool {
-		budget := 40 * (len(s.Created) + p.N*p.N + 10)
+		budget := 150 * (len(s.Created) + p.N*p.N + 10)
 		total := budget
 		defer func() {
 			used := 100 * (total - budget) / total
 			switch {
 			case used <= 10:
 				c.Count("drain.budget_used_le_10pct", 1)
+			case used <= 25:
+				c.Count("drain.budget_used_le_25pct", 1)
 			case used <= 50:
 				c.Count("drain.budget_used_le_50pct", 1)
 			default:
